@@ -8,6 +8,7 @@ mod c15;
 mod bldrun;
 mod c19;
 mod dump_grammar;
+mod dump_operand;
 mod itext;
 mod loadrun;
 mod pstream;
@@ -29,6 +30,7 @@ fn main() {
     match args[1].as_str() {
         "dump-spirv" => dump_spirv::dump(&args[2], &args[3]),
         "sweep-spirv" => dump_spirv::sweep(&args[2]),
+        "dump-operand" => dump_operand::dump(&args[2], &args[3]),
         "dump-grammar" => dump_grammar::dump(&args[2]),
         "serve" => pstream::serve(&args[2], &args[3]),
         "c11" => c11::run(&args[2], args[3].parse().unwrap(), &args[4], &args[5]),
